@@ -5,6 +5,31 @@ from .types import IC10Register, IC10Instruction
 from .utils import get_scope_name, CompilerError
 
 
+def _verif_on():
+    # verification hook (guard PYTRAPIC_VERIF=1): export allocation inputs and decisions
+    import os
+
+    return os.environ.get("PYTRAPIC_VERIF") == "1"
+
+
+def _verif_scope_record(scope, available_registers, symbols):
+    return {
+        "scope": scope,
+        "available": list(available_registers),
+        "symbols": [
+            {
+                "name": str(s.name),
+                "vreg": s.code_expr,
+                "start": s.lifetime.start,
+                "stop": s.lifetime.stop,
+                "color": s._color,
+                "intermediate": bool(s._is_intermediate),
+            }
+            for s in symbols
+        ],
+    }
+
+
 def assign_colors(symbols: list[IC10Register]):
     # Sort by start time
     symbols_sorted = sorted(symbols, key=lambda s: s.lifetime.start)
@@ -86,6 +111,7 @@ def assign_registers(data: CodeData, code: list[IC10Instruction]):
             raise RuntimeError("Internal error: cannot sort scopes")
 
     registers = list(range(16))
+    _verif_scopes = []
 
     registers_by_scope = {}
     blocked_registers_by_scope = {}
@@ -126,6 +152,8 @@ def assign_registers(data: CodeData, code: list[IC10Instruction]):
                 symbols.append(symbol)
 
         assign_colors(symbols)
+        if _verif_on():
+            _verif_scopes.append(_verif_scope_record(scope, available_registers, symbols))
         for sym in symbols:
             if sym.code_expr in mapping:
                 sym.code_expr = mapping[sym.code_expr]
@@ -177,5 +205,14 @@ def assign_registers(data: CodeData, code: list[IC10Instruction]):
     used_registers = set()
     for scope in data.symbols:
         used_registers = used_registers.union(registers_by_scope.get(scope, set()))
+
+    if _verif_on():
+        data._verif_regalloc = {
+            "called_from": {k: sorted(v) for k, v in called_from.items()},
+            "sorted_scopes": list(sorted_scopes),
+            "mapping": dict(mapping),
+            "scopes": _verif_scopes,
+            "registers_by_scope": {k: sorted(v) for k, v in registers_by_scope.items()},
+        }
 
     return sorted(used_registers)
